@@ -52,6 +52,11 @@ def run(ctx):
     rng = ctx.rng("c11")
     N = 6000 if ctx.quick else 120000
     k = ctx.shard % 4
+    for _round in range(1 if ctx.quick else 4):
+        _c11_round(ctx, eqs, ctx.rng("c11:%d" % _round), N, k)
+
+
+def _c11_round(ctx, eqs, rng, N, k):
     if k == 0:
         initialize(ctx, eqs, rng, N * 3)
     elif k == 1:
